@@ -509,7 +509,8 @@ def rule_e(ctx):
             if rv.get("agg") == "adt" and rv.get("variant") == "Line" and ends(rv.get("adt"), "RenderLine"):
                 lines.append((bb, st))
     ctx.floor("C05-E", "border line constructions in append_columns_with_borders", len(lines), 1)
-    cut = edges_where(b, lambda truth, src, a, s: truth is True and src_field(src) == ("render::text_renderer::RenderOptions", "draw_borders"))
+    from ..util import field_true_edges
+    cut = field_true_edges(b, "render::text_renderer::RenderOptions", "draw_borders")
     for bb, st in lines:
         ctx.check(unreachable_without_edges(b, bb, cut), "C05-E", "bottom-rule-only-under-draw_borders", st["span"], b.id, "")
         at = b.atoms(st["rv"]["ops"][0])
@@ -519,7 +520,8 @@ def rule_e(ctx):
 def rule_f(ctx):
     F = ctx.facts
     b = F.one(RTRAIT + "append_vert_row")
-    cut = edges_where(b, lambda truth, src, a, s: truth is True and src_field(src) == ("render::text_renderer::RenderOptions", "draw_borders"))
+    from ..util import field_true_edges
+    cut = field_true_edges(b, "render::text_renderer::RenderOptions", "draw_borders")
     nt = b.calls(lambda cd, t: ends(cd, "BorderHoriz::<T>::new_type"))
     if ctx.check(len(nt) == 1, "C05-F", "one-separator-rule-kind", b.span, b.id, ""):
         bb, t = nt[0]
